@@ -58,8 +58,10 @@ class Gen(object):
         k = r.random()
         if k < 0.5:
             return g.bn(r.choice(['+', '-', '*']), self.intexpr(d - 1, sc), self.intexpr(d - 1, sc))
-        if k < 0.7:
+        if k < 0.62:
             return g.mcall(self.listexpr(d - 1, sc), r.choice(['len', 'sum', 'first', 'last']), *([g.c(0)] if r.random() < 0.6 else []))
+        if k < 0.7:
+            return g.safemcall(self.listexpr(d - 1, sc), r.choice(['len', 'sum']), *([g.c(0)] if r.random() < 0.5 else []))
         if k < 0.85:
             return self.scoped(d, sc, self.intexpr)
         return g.idx(self.listexpr(d - 1, sc), g.c(r.randint(-1, 2)))
@@ -177,6 +179,11 @@ def fixed_probes():
         arrow(g.call('def', g.kwd('f'), g.bn('*', v('x'), c(2))), g.lst(g.call('f', x=c(5)), v('x'))),
         arrow(g.call('let', x=c(0)), arrow(g.call('def', g.kwd('f'), g.bn('+', v('x'), c(1))), g.lst(g.call('f', x=c(5)), v('x'), g.call('f', x=c(7)), g.call('f')))),
         arrow(g.call('def', g.kwd('f'), g.lst(v('x'), v('y'))), g.lst(g.call('f', x=c(1)), g.call('f', y=c(2)), g.call('f', c(3), y=c(4)))),
+        # ?. only steps aside for null: an empty or false-like receiver is a receiver
+        g.lst(g.safemcall(g.lst(), 'select', g.bn('+', X, c(1))), g.safemcall(g.lst(), 'len'), g.safemcall(c(None), 'len'), g.safemcall(c(0), 'len'),
+              g.safemcall(c(''), 'len'), g.safemcall(c(False), 'len')),
+        g.lst(g.safeattr(g.mp(), 'a'), g.safeattr(g.lst(), 'a'), g.safeattr(c(None), 'a'), g.safeattr(g.mp((g.kwd('a'), c(0))), 'a')),
+        arrow(g.call('let', xs=g.lst()), g.lst(g.safemcall(v('xs'), 'len'), g.safemcall(g.mcall(v('xs'), 'toList'), 'sum', c(5)))),
     ]
 
 
